@@ -11,7 +11,7 @@ EXTENDS AtsMC
 
 CONSTANT Tier
 
-R(n, sp) == Dec(n, sp)
+R(n, sp) == Dec(n * 100, sp)            \* a rate given in units of 0.0001
 
 PairFamily(acct) == {
   <<NoDec, NoStr>>, <<Some(R(0, "bad_empty")), Some("")>>, <<Some(R(2500, "plain")), NoStr>>, <<NoDec, Some(acct)>>,
@@ -49,7 +49,7 @@ DoInstantiate == ~st.cfg.set /\ \E m \in FamilyA \cup FamilyB : Step(RInstantiat
 DoQuery       == \E r \in {RQuery("query_cfg", ""), RQuery("query_ver", "")} : Step(r)
 \* requests before instantiation are refused
 DoEarly       == ~st.cfg.set /\ \E r \in {RReverse("cancel_ask", "seller1", NoFunds, "a1", NoSize), ModifyNothing("exec1"),
-                                          RCreateAsk("seller1", Coins1("base", 1), "a1", "base", "q1", R(10000, "plain"), 1),
+                                          RCreateAsk("seller1", Coins1("base", 1), "a1", "base", "q1", Dec(10000, "plain"), 1),
                                           RMigrate(MigrateNothing)} : Step(r)
 
 Next == DoInstantiate \/ DoQuery \/ DoEarly
